@@ -396,4 +396,29 @@ def rule_srv(ctx):
            f"the server opens files with modes {sorted(modes - supported)} that MemoryPathIO._open does not implement", construct=f"srv:modes {sorted(modes - supported)}")
 
 
-RULES = [rule_sig, rule_fs, rule_mode, rule_atomic, rule_srv]
+def rule_state(ctx):
+    p = ctx.p
+    ctx.rule("C18.STATE", "the in-memory backend keeps no per-instance lookup state: every session has its own instance over ONE shared tree, so a cache in an instance "
+                          "goes stale when another session changes the tree (the filesystem backends always see the current tree)")
+    for b in p.backends():
+        for name, fn in p.methods(b).items():
+            if name == "__init__":
+                continue
+            stores = [t for n in walk_no_nested(fn) for t in (assign_targets(n) if isinstance(n, (ast.Assign, ast.AugAssign, ast.AnnAssign, ast.Delete)) else [])
+                      if isinstance(t, (ast.Attribute, ast.Subscript)) and _root_is_self(t)]
+            muts = [c_ for c_ in walk_no_nested(fn) if isinstance(c_, ast.Call) and isinstance(c_.func, ast.Attribute) and c_.func.attr in ("setdefault", "update", "pop", "clear", "append", "add", "discard", "popitem")
+                    and isinstance(c_.func.value, ast.Attribute) and isinstance(c_.func.value.value, ast.Name) and c_.func.value.value.id == "self" and c_.func.value.attr not in ("fs",)]
+            bad = [src(t) for t in stores if not src(t).startswith("self.fs")] + [src(c_)[:40] for c_ in muts]
+            ctx.ob("C18.STATE", fn, f"{b}.{name} stores nothing on the backend instance", not bad,
+                   f"{b}.{name} keeps state on the backend instance ({bad[:2]}): with one instance per session over a shared tree it goes stale when another session changes the tree",
+                   construct=f"{b}.{name}:instance state")
+    # decorators that hang state-resetting hooks on mutators are the same smell; covered by C18.SIG (decorator roles)
+
+
+def _root_is_self(t):
+    while isinstance(t, (ast.Attribute, ast.Subscript)):
+        t = t.value
+    return isinstance(t, ast.Name) and t.id == "self"
+
+
+RULES = [rule_sig, rule_fs, rule_mode, rule_atomic, rule_srv, rule_state]
